@@ -174,6 +174,13 @@ DTDValidator::validateAttrValue(const   XMLAttDef*      attDef
         (type == XMLAttDef::IDRefs)
         || (type == XMLAttDef::Entities)
         || (type == XMLAttDef::NmTokens)
+    );
+
+    //  A notation or enumeration value is a single token; it only shares
+    //  the white space normalization of the list types.
+    const bool collapseValue =
+    (
+        multipleValues
         || (type == XMLAttDef::Notation)
         || (type == XMLAttDef::Enumeration)
     );
@@ -228,7 +235,7 @@ DTDValidator::validateAttrValue(const   XMLAttDef*      attDef
     //   - ...
     //   - attributes with tokenized types, where the attribute appears in the document with a value such that normalization will 
     //     produce a different value from that which would be produced in the absence of the declaration"
-    if (multipleValues && (!isExternal || !getScanner()->getStandalone()))
+    if (collapseValue && (!isExternal || !getScanner()->getStandalone()))
         XMLString::collapseWS(pszTmpVal, getScanner()->getMemoryManager());
 
     XMLCh* valPtr = pszTmpVal;
